@@ -126,7 +126,7 @@ theorem create_of {s : St} {name ty : String} {o : Opts} {a : Addr}
         (.error .exists, putNet s (recHash H s name ty o) ⟨name, ty, recAcl s o⟩)
       else (.ok (a, ty, recAcl s o),
         addLocal (putNet s (recHash H s name ty o) ⟨name, ty, recAcl s o⟩) a) := by
-  have hpp : parse isCid (print a) = some a := determine_parse_print hc hs hd
+  have hpp : parse isCid (print a) = some a := parse_print_of_parse0 (determine_parse_print hc hs hd)
   have hroot : a.root = recHash H s name ty o := determine_root hd
   unfold create
   rw [determineAddr_of ht hn hd]
